@@ -21,10 +21,14 @@ Open Scope Z_scope.
    A field's "type" may be spelled as a plain string or as any dict / list definition
    (Schema.__post_init__ does not validate those).  ftype is the primitive type the definition
    RESOLVES to for storage and value admission (_iceberg_type_to_arrow / _value_fits: {"type": t, ...}
-   -> t; anything unrecognised -> string); fspell identifies the spelling (0 = plain string; the harness
-   numbers every other JSON text injectively).  The signature's type_key is the JSON text, i.e. the
-   pair (ftype, fspell): two spellings of the same type do NOT compare equal. *)
-Record field := { fid : Z; fname : Z; ftype : ptype; fspell : Z; freq : bool }.
+   -> t; "list<e>" -> a list of what e resolves to, to any depth; anything unrecognised -> string);
+   fspell identifies the spelling (0 = plain string; the harness numbers every other JSON text
+   injectively).  The signature's type_key is the JSON text, i.e. the pair (ftype, fspell): two
+   spellings of the same type do NOT compare equal.
+   Field ids are integers: Schema.__post_init__ refuses every other id object (pinned by the translator). *)
+Inductive ctype := CPrim (t : ptype) | CList (e : ctype).        (* a column type *)
+Inductive catype := APrim (a : atype) | AList (e : catype).      (* its Arrow type: pa.list_(...) *)
+Record field := { fid : Z; fname : Z; ftype : ctype; fspell : Z; freq : bool }.
 (* Schema(schema_id, fields) *)
 Record ischema := { sid : Z; sfields : list field; sstring : Z }.
 (* sstring stands for Schema.schema_string (and any other attribute derived from the fields ONCE, at
@@ -34,15 +38,29 @@ Record ischema := { sid : Z; sfields : list field; sstring : Z }.
 
 Definition ptype_eqb (a b : ptype) : bool := ptype_tag a =? ptype_tag b.
 Definition atype_eqb (a b : atype) : bool := atype_tag a =? atype_tag b.
+Fixpoint ctype_eqb (a b : ctype) : bool :=
+  match a, b with
+  | CPrim x, CPrim y => ptype_eqb x y
+  | CList x, CList y => ctype_eqb x y
+  | _, _ => false
+  end.
+Fixpoint catype_eqb (a b : catype) : bool :=
+  match a, b with
+  | APrim x, APrim y => atype_eqb x y
+  | AList x, AList y => catype_eqb x y
+  | _, _ => false
+  end.
+Fixpoint arrow_of_ctype (c : ctype) : catype :=
+  match c with CPrim t => APrim (arrow_of_type t) | CList e => AList (arrow_of_ctype e) end.
 
 (* the components a signature tuple can carry *)
-Inductive sigv := SVId (z : Z) | SVName (z : Z) | SVType (t : ptype) (sp : Z) | SVReq (b : bool).
+Inductive sigv := SVId (z : Z) | SVName (z : Z) | SVType (t : ctype) (sp : Z) | SVReq (b : bool).
 
 Definition sigv_eqb (x y : sigv) : bool :=
   match x, y with
   | SVId a, SVId b => a =? b
   | SVName a, SVName b => a =? b
-  | SVType a sa, SVType b sb => ptype_eqb a b && (sa =? sb)
+  | SVType a sa, SVType b sb => ctype_eqb a b && (sa =? sb)
   | SVReq a, SVReq b => Bool.eqb a b
   | _, _ => false
   end.
@@ -79,14 +97,14 @@ Definition accept_schema (t a : list field) : bool := sig_eqb (signature a) (sig
 
 (* ------------------------------------------------------------------ Arrow schemas and the cache *)
 (* pa.field(name, type, nullable), in FIELD ORDER *)
-Definition afield := (Z * atype * bool)%type.
+Definition afield := (Z * catype * bool)%type.
 Definition aschema := list afield.
 
 Definition arrow_of (s : list field) : aschema :=
-  map (fun f => (fname f, arrow_of_type (ftype f), negb (freq f))) s.
+  map (fun f => (fname f, arrow_of_ctype (ftype f), negb (freq f))) s.
 
 Definition afield_eqb (x y : afield) : bool :=
-  match x, y with (n1, t1, b1), (n2, t2, b2) => (n1 =? n2) && atype_eqb t1 t2 && Bool.eqb b1 b2 end.
+  match x, y with (n1, t1, b1), (n2, t2, b2) => (n1 =? n2) && catype_eqb t1 t2 && Bool.eqb b1 b2 end.
 Definition aschema_eqb : aschema -> aschema -> bool := list_eqb afield_eqb.
 
 (* DataFileManager._arrow_schema_cache : schema_id -> pa.Schema, one per table handle.
@@ -104,11 +122,14 @@ Definition ids_of (s : list field) : list (Z * Z) := map (fun f => (fname f, fid
 Definition fid_in (s : list field) (col : Z) : option Z := lookup col (ids_of s).
 
 (* ------------------------------------------------------------------ Python values *)
-(* what a record may carry: the shared value domain, bytes, or anything else
-   (Decimal, list, dict, tz-aware datetime ...) *)
-Inductive pyval := PV (v : value) | PBytes (bs : list Z) | POther.
+(* what a record may carry: the shared value domain, bytes, a list / tuple of such values, or anything
+   else (Decimal, dict, tz-aware datetime ...) *)
+Inductive pyval := PV (v : value) | PBytes (bs : list Z) | POther | PList (l : list pyval).
 
-Definition record := list (Z * pyval).                (* dict: field name -> value *)
+(* dict: key -> value.  A key that is a str is the (non-negative) number of that field name; any other key
+   object k (1, None, True, a tuple ...) is - (1 + the number of the name str(k)).  Field names are strs. *)
+Definition record := list (Z * pyval).
+Definition key_is_str (k : Z) : bool := 0 <=? k.
 Definition rget (r : record) (k : Z) : pyval :=       (* record.get(name) *)
   match lookup k r with Some v => v | None => PV VNull end.
 Definition is_none (v : pyval) : bool := match v with PV VNull => true | _ => false end.
@@ -132,6 +153,7 @@ Definition value_fits (t : ptype) (v : pyval) : bool :=
   match v with
   | PV VNull => true
   | POther => false
+  | PList _ => false
   | PBytes _ => match t with T_binary | T_fixed => true | _ => false end
   | PV w =>
     match t with
@@ -158,16 +180,24 @@ Definition value_fits (t : ptype) (v : pyval) : bool :=
     end
   end.
 
-(* validate_records_strict, per record: no unknown key; required fields present and not None;
-   every value admissible for its declared type *)
+(* a list<e> column: a list (or tuple) whose every element is admissible for e; None passes *)
+Fixpoint value_fits_c (c : ctype) (v : pyval) : bool :=
+  match c with
+  | CPrim t => value_fits t v
+  | CList e => match v with PV VNull => true | PList l => forallb (value_fits_c e) l | _ => false end
+  end.
+
+(* validate_records_strict, per record: every key is a str; no unknown key; required fields present and
+   not None; every value admissible for its declared type *)
 Definition has_field (s : list field) (k : Z) : bool := existsb (fun f => fname f =? k) s.
 
 Definition validate_record (s : list field) (r : record) : bool :=
-  forallb (fun kv => has_field s (fst kv)) r
+  forallb (fun kv => key_is_str (fst kv)) r
+  && forallb (fun kv => has_field s (fst kv)) r
   && forallb (fun f => negb (freq f) || negb (is_none (rget r (fname f)))) s
-  && forallb (fun f => value_fits (ftype f) (rget r (fname f))) s.
+  && forallb (fun f => value_fits_c (ftype f) (rget r (fname f))) s.
 
-(* ---- what the declared type stores for an admitted value ----
+(* ---- what the declared type stores for a value that passed the admission test ----
    rnd32 is IEEE binary32 round-to-nearest-even on finite rationals (external arithmetic). *)
 Definition canon (rnd32 : Q -> num) (t : ptype) (v : pyval) : pyval :=
   match t, v with
@@ -176,6 +206,11 @@ Definition canon (rnd32 : Q -> num) (t : ptype) (v : pyval) : pyval :=
   | T_float, PV (VFlt (Fin q)) => PV (VFlt (rnd32 q))
   | T_double, PV (VInt z) => PV (VFlt (Fin (inject_Z z)))
   | _, _ => v
+  end.
+Fixpoint canon_c (rnd32 : Q -> num) (c : ctype) (v : pyval) : pyval :=
+  match c with
+  | CPrim t => canon rnd32 t v
+  | CList e => match v with PList l => PList (map (canon_c rnd32 e) l) | _ => v end
   end.
 
 (* ------------------------------------------------------------------ files, bounds, scans *)
@@ -190,16 +225,18 @@ Record dfile := {
   df_hi : list (Z * value)
 }.
 
-(* the cell as the pruning / filter model sees it (bytes never carry bounds) *)
+(* the cell as the pruning / filter model sees it (bytes and lists never carry bounds) *)
 Definition bval (v : pyval) : value := match v with PV w => w | _ => VNull end.
 Definition vrow (r : srow) : row := map (fun kv => (fst kv, bval (snd kv))) r.
 
 (* _compute_column_bounds(table, iceberg_schema): iterates the ARGUMENT schema's fields; skips
    a field whose name is not a column of the Arrow table or whose (resolved) type is binary/fixed;
-   stores the bound under the ARGUMENT's field id *)
+   stores the bound under the ARGUMENT's field id.  For a list column pc.min / pc.max raise
+   ArrowNotImplementedError, which is caught: no bounds either. *)
+Definition bounds_skipped_c (c : ctype) : bool := match c with CPrim t => bounds_skipped t | CList _ => true end.
 Definition has_col (a : aschema) (n : Z) : bool := existsb (fun x => fst (fst x) =? n) a.
 Definition bound_ids (s : list field) (a : aschema) : list (Z * Z) :=
-  ids_of (filter (fun f => has_col a (fname f) && negb (bounds_skipped (ftype f))) s).
+  ids_of (filter (fun f => has_col a (fname f) && negb (bounds_skipped_c (ftype f))) s).
 Definition bounds_for (s : list field) (a : aschema) (rows : list srow) : list (Z * value) * list (Z * value) :=
   file_bounds (bound_ids s a) (map vrow rows).
 
@@ -213,7 +250,7 @@ Definition scan_ok (files : list dfile) : bool :=
 (* ------------------------------------------------------------------ the append machine *)
 Section Machine.
   (* pyarrow's Python -> Arrow conversion of one cell (None = raises); an external oracle *)
-  Variable conv : atype -> pyval -> option pyval.
+  Variable conv : catype -> pyval -> option pyval.
 
   Fixpoint conv_row (a : aschema) (r : record) : option srow :=
     match a with
